@@ -250,6 +250,9 @@ func run(c *Case) (*outcome, *vkit.Violation, error) {
 	}
 	o.success = resp.GetState() == pb.ResponseState_SUCCEEDED
 	o.message = resp.GetMessage()
+	if len(cl.Net.HookPanics) > 0 {
+		return o, nil, fmt.Errorf("a hook of the check itself panicked: %s", cl.Net.HookPanics[0])
+	}
 	if len(cl.Net.Panics) > 0 {
 		return o, vkit.Violf("instance-crashed", "%v", cl.Net.Panics), nil
 	}
